@@ -147,11 +147,12 @@ def sibling_lines(kids, level: int, eol: str, raw=False):
 
 def list_str(items, indent: int = 0, eol: str = "\n", add_ws: bool = True) -> str:
     kids = [c for c in _flat(items) if c["k"] not in ("meta", "dep", "headc")]
-    if not add_ws:
-        if any(is_block(k) for k in kids):
-            raise ValueError("add_ws=False is only modelled for all-inline lists")
-        return "".join(inline_str(k) for k in kids)
-    return eol.join(sibling_lines(kids, indent, eol))
+    lines = sibling_lines(kids, indent, eol)
+    if not add_ws and kids and not is_block(kids[0]):
+        # add_ws=False: no whitespace before a leading run of non-block items (the Tag docstring: whitespace is added if
+        # either add_ws or the item's own flag asks for it); everything after the first line is laid out as usual
+        lines[0] = lines[0][len("  " * indent):]
+    return eol.join(lines)
 
 
 def valid(r, inside_inline=False) -> bool:
